@@ -116,7 +116,14 @@ func (a *AST) computeFollows(n Node) {
 	case *Concat:
 		for i := 0; i < len(v.Exprs)-1; i++ {
 			for _, p := range v.Exprs[i].lastPos() {
-				a.follows[p] = append(a.follows[p], v.Exprs[i+1].firstPos()...)
+				// The positions following p are the first positions of the next expressions,
+				// up to and including the first one that is not nullable.
+				for j := i + 1; j < len(v.Exprs); j++ {
+					a.follows[p] = a.follows[p].Union(v.Exprs[j].firstPos())
+					if !v.Exprs[j].nullable() {
+						break
+					}
+				}
 			}
 		}
 
@@ -230,7 +237,7 @@ func (n *Concat) compute() {
 	}
 
 	n.comp = &computed{
-		nullable: false,
+		nullable: true,
 		firstPos: Poses{},
 		lastPos:  Poses{},
 	}
